@@ -268,6 +268,9 @@ async def run_history(mods, ops, trace):
                             what = "a delete naming a stale version removed the newer entry"
                         elif k == "offer" and kk == key:
                             what = "the result of the offer (a failed preparation included) was not cached"
+                            if raised_after_preparing:
+                                what += (f": the offer of version {op['version']!r} prepared and then raised "
+                                         "SubscriptionCycle, the lookups must still return that result")
                         else:
                             what = "an entry vanished"
                         return i, what
